@@ -1361,6 +1361,281 @@ func (g *gen) twkb(geom *pkg) {
 		return geom.where(key) + ": kinds for which the ID-list flag is refused", it
 	})
 	g.opTable("twkb_parse_extprec_ops", geom, "twkbParser.parseExtendedPrecision", false, func(fd *ast.FuncDecl) []opc { return geom.bitops(fd.Body) })
+
+	// ---- the count guards of the parser (fix F7): every call recv.checkCount(_, E) in a method of
+	// twkbParser, E = the least number of bytes of one element
+	g.listDef("twkb_parse_count_guards", "string * string * Z", func() (string, []string) {
+		var it []string
+		for _, key := range geom.funcOrder {
+			fd := geom.funcs[key]
+			if fd.Body == nil || recvName(fd) != "twkbParser" {
+				continue
+			}
+			env := paramEnv(fd)
+			var calls []*ast.CallExpr
+			ast.Inspect(fd.Body, func(n ast.Node) bool {
+				if c, ok := n.(*ast.CallExpr); ok && calleeName(c) == "checkCount" {
+					calls = append(calls, c)
+				}
+				return true
+			})
+			sort.SliceStable(calls, func(i, j int) bool { return calls[i].Pos() < calls[j].Pos() })
+			for _, c := range calls {
+				sym, add, ok := "", int64(0), false
+				if sel, isSel := unparen(c.Fun).(*ast.SelectorExpr); isSel && len(c.Args) == 2 && !c.Ellipsis.IsValid() {
+					if id, isId := unparen(sel.X).(*ast.Ident); isId && env[id.Name] == "recv" {
+						sym, add, ok = geom.symPlusConst(c.Args[1])
+					}
+				}
+				if !ok { // not of the shape recv.checkCount(_, [selector] [+ literal]): a row no model matches
+					sym, add = "?"+canon(c, env), 0
+				}
+				it = append(it, fmt.Sprintf("(%s, %s, %s)", gs(fd.Name.Name), gs(sym), gz(add)))
+			}
+		}
+		return "geom: methods of twkbParser, every call recv.checkCount(_, E): (method, the field E mentions or the empty string, the integer E adds), source order", it
+	})
+	// the shape of checkCount itself: parameter types, the locals (v0, v1, ...) it defines, the comparison of
+	// its only `if`, what the two branches return
+	g.listDef("twkb_parse_check_count_shape", "string * string", func() (string, []string) {
+		key := "twkbParser.checkCount"
+		fd := geom.fn(key)
+		env := paramEnv(fd)
+		var it []string
+		row := func(k, v string) { it = append(it, fmt.Sprintf("(%s, %s)", gs(k), gs(v))) }
+		var ptypes []string
+		if fd.Type.Params != nil {
+			for _, f := range fd.Type.Params.List {
+				n := len(f.Names)
+				if n == 0 {
+					n = 1
+				}
+				for i := 0; i < n; i++ {
+					ptypes = append(ptypes, canon(f.Type, nil))
+				}
+			}
+		}
+		row("params", strings.Join(ptypes, ","))
+		returnsNil := func(s ast.Stmt) (isNil, ok bool) {
+			r, isRet := s.(*ast.ReturnStmt)
+			if !isRet || len(r.Results) != 1 {
+				return false, false
+			}
+			id, isId := unparen(r.Results[0]).(*ast.Ident)
+			return isId && id.Name == "nil", true
+		}
+		nlocals, nifs := 0, 0
+		for i, s := range fd.Body.List {
+			switch x := s.(type) {
+			case *ast.AssignStmt:
+				id, isId := x.Lhs[0].(*ast.Ident)
+				if x.Tok != token.DEFINE || len(x.Lhs) != 1 || len(x.Rhs) != 1 || !isId {
+					fail("%s: statement %d is not `name := expr`", key, i)
+				}
+				v := fmt.Sprintf("v%d", nlocals)
+				nlocals++
+				row(v, canon(x.Rhs[0], env)) // the right-hand side is printed before the name is bound
+				env[id.Name] = v
+			case *ast.IfStmt:
+				nifs++
+				b, isBin := unparen(x.Cond).(*ast.BinaryExpr)
+				if x.Init != nil || x.Else != nil || !isBin || len(x.Body.List) != 1 {
+					fail("%s: the if statement is not `if a OP b { return ... }`", key)
+				}
+				row("lhs", canon(b.X, env))
+				row("op", b.Op.String())
+				row("rhs", canon(b.Y, env))
+				isNil, ok := returnsNil(x.Body.List[0])
+				if !ok {
+					fail("%s: the body of the if statement is not a return of one value", key)
+				}
+				if isNil {
+					row("then", "nil")
+				} else {
+					row("then", "error")
+				}
+			case *ast.ReturnStmt:
+				isNil, ok := returnsNil(x)
+				if !ok || i != len(fd.Body.List)-1 {
+					fail("%s: unexpected return statement", key)
+				}
+				if isNil {
+					row("else", "nil")
+				} else {
+					row("else", "error")
+				}
+			default:
+				fail("%s: statement %d is of an unexpected kind %T", key, i, s)
+			}
+		}
+		if nifs != 1 {
+			fail("%s: %d if statements", key, nifs)
+		}
+		return geom.where(key) + ": parameter types; locals v0.. := expr; if lhs op rhs { return then }; return else", it
+	})
+	// p.dimensions (the operand of two of the guards): the value the constructor gives it and the values the
+	// cases of the tagless switch of parseExtendedPrecision assign, with the coordinates type set alongside
+	g.listDef("twkb_parse_dimensions", "string * string * Z", func() (string, []string) {
+		var it []string
+		row := func(cond, ct string, d int64) { it = append(it, fmt.Sprintf("(%s, %s, %s)", gs(cond), gs(ct), gz(d))) }
+		ckey, pkey := "newTWKBParser", "twkbParser.parseExtendedPrecision"
+		// newTWKBParser: twkbParser{..., ctype: DimXY, dimensions: 2}
+		var lit *ast.CompositeLit
+		ast.Inspect(geom.fn(ckey).Body, func(n ast.Node) bool {
+			if c, ok := n.(*ast.CompositeLit); ok && lit == nil {
+				if id, ok := c.Type.(*ast.Ident); ok && id.Name == "twkbParser" {
+					lit = c
+				}
+			}
+			return true
+		})
+		if lit == nil {
+			fail("%s: no twkbParser{...} literal", ckey)
+		}
+		ct, dims, seen := "", int64(0), 0
+		for _, e := range lit.Elts {
+			kv, ok := e.(*ast.KeyValueExpr)
+			if !ok {
+				fail("%s: positional composite literal", ckey)
+			}
+			switch lastName(kv.Key, nil) {
+			case "ctype":
+				ct = lastName(kv.Value, nil)
+				seen |= 1
+			case "dimensions":
+				dims = geom.mustInt(kv.Value, ckey)
+				seen |= 2
+			}
+		}
+		if seen != 3 {
+			fail("%s: the literal does not set both ctype and dimensions", ckey)
+		}
+		row("", ct, dims)
+		fd := geom.fn(pkey)
+		env := paramEnv(fd)
+		sw := findSwitch(fd, pkey, func(s *ast.SwitchStmt) bool { return s.Tag == nil })
+		inSwitch := 0
+		for _, c := range clauses(sw) {
+			cond := "default"
+			if len(c.List) == 1 {
+				cond = canon(c.List[0], env)
+			} else if len(c.List) > 1 {
+				fail("%s: a case with %d conditions", pkey, len(c.List))
+			}
+			ct, dims, seen := "", int64(0), 0
+			for _, s := range c.Body {
+				a, ok := s.(*ast.AssignStmt)
+				if !ok || len(a.Lhs) != 1 || len(a.Rhs) != 1 {
+					continue
+				}
+				switch lastName(a.Lhs[0], nil) {
+				case "ctype":
+					if a.Tok != token.ASSIGN {
+						fail("%s: ctype is not plainly assigned", pkey)
+					}
+					ct = lastName(a.Rhs[0], nil)
+					seen |= 1
+				case "dimensions":
+					if a.Tok != token.ASSIGN {
+						fail("%s: dimensions is not plainly assigned", pkey)
+					}
+					dims = geom.mustInt(a.Rhs[0], pkey)
+					seen |= 2
+					inSwitch++
+				}
+			}
+			if seen != 3 {
+				fail("%s: case %s does not set both ctype and dimensions", pkey, cond)
+			}
+			row(cond, ct, dims)
+		}
+		// any other place where a method of twkbParser (or the constructor) writes p.dimensions
+		total := 0
+		for _, key := range geom.funcOrder {
+			fd := geom.funcs[key]
+			if fd.Body == nil || (recvName(fd) != "twkbParser" && key != ckey) {
+				continue
+			}
+			isDims := func(e ast.Expr) bool {
+				sel, ok := unparen(e).(*ast.SelectorExpr)
+				return ok && sel.Sel.Name == "dimensions"
+			}
+			ast.Inspect(fd.Body, func(n ast.Node) bool {
+				switch x := n.(type) {
+				case *ast.AssignStmt:
+					for _, l := range x.Lhs {
+						if isDims(l) {
+							total++
+						}
+					}
+				case *ast.IncDecStmt:
+					if isDims(x.X) {
+						total++
+					}
+				case *ast.UnaryExpr:
+					if x.Op == token.AND && isDims(x.X) {
+						total++
+					}
+				}
+				return true
+			})
+		}
+		if total != inSwitch {
+			row("?", fmt.Sprintf("%d further assignments to dimensions", total-inSwitch), -1)
+		}
+		return fmt.Sprintf("%s (literal) and %s (tagless switch): (condition, ctype, dimensions)", geom.where(ckey), geom.where(pkey)), it
+	})
+}
+
+// symPlusConst splits E into at most one field/identifier and an integer: p.dimensions -> ("dimensions", 0),
+// 1 -> ("", 1), 1+p.dimensions -> ("dimensions", 1).  Conversions to the built-in integer types are looked through.
+func (p *pkg) symPlusConst(e ast.Expr) (sym string, add int64, ok bool) {
+	var terms []ast.Expr
+	var flat func(e ast.Expr)
+	flat = func(e ast.Expr) {
+		e = unparen(e)
+		if b, isBin := e.(*ast.BinaryExpr); isBin && b.Op == token.ADD {
+			if _, isConst := p.intOf(e); !isConst {
+				flat(b.X)
+				flat(b.Y)
+				return
+			}
+		}
+		if c, isCall := e.(*ast.CallExpr); isCall && len(c.Args) == 1 && !c.Ellipsis.IsValid() {
+			if id, isId := c.Fun.(*ast.Ident); isId {
+				switch id.Name {
+				case "int", "int64", "uint64", "uint", "int32", "uint32":
+					flat(c.Args[0])
+					return
+				}
+			}
+		}
+		terms = append(terms, e)
+	}
+	flat(e)
+	nsym := 0
+	for _, t := range terms {
+		if v, isConst := p.intOf(t); isConst {
+			add += v
+			continue
+		}
+		switch x := t.(type) {
+		case *ast.Ident:
+			sym = x.Name
+		case *ast.SelectorExpr:
+			if _, isId := unparen(x.X).(*ast.Ident); !isId {
+				return "", 0, false
+			}
+			sym = x.Sel.Name
+		default:
+			return "", 0, false
+		}
+		nsym++
+	}
+	if nsym > 1 {
+		return "", 0, false
+	}
+	return sym, add, true
 }
 
 // ---- Relate
